@@ -144,4 +144,133 @@ def handleC16 (inp obs : List String) : Verdict :=
         else { kind := "ok", nontrivial, classes }
   | _, _ => { kind := "badcase", detail := "unparsable C16 case" }
 
+
+/-! ## C17 -/
+def seekAllC (s : Lapper Nat) : List (Nat × Nat) → Nat → List (List (Iv Nat) × Nat)
+  | [], _ => []
+  | (qs, qe) :: rest, c => let r := s.seek qs qe c; (r.1, r.2) :: seekAllC s rest r.2
+
+def handleC17 (inp obs : List String) : Verdict :=
+  let parsed := (do let h ← pHist; let qs ← many pQ; pure (h, qs)).run inp
+  let pobs : Option (Option (List (List (Iv Nat) × List (Iv Nat))) × List String) := (do
+    match (← peek?) with
+    | some "panic" => pure none
+    | _ => let l ← many (do let a ← many pIv; let b ← many pIv; pure (canonIv a, canonIv b)); pure (some l)).run obs
+  match parsed, pobs with
+  | some (((init, ops), qs), _), some (o, _) =>
+    let s := Lapper.run init ops
+    let ivs := s.intervals.toList
+    let stored := if hasMerge ops then ivs else init ++ insertedOf ops
+    let run := seekAllC s qs 0
+    let maxStart := stored.foldl (fun m iv => max m iv.start) 0
+    let minStart := stored.foldl (fun m iv => min m iv.start) (stored.headD default).start
+    let nontrivial := stored.length ≥ 2 && qs.length ≥ 2
+    let classes :=
+      (if (qs.zip (qs.drop 1)).any (fun (a, b) => a == b) then ["repeated-query"] else []) ++
+      (if qs.any (fun q => q.1 > maxStart) && !stored.isEmpty then ["past-last-interval"] else []) ++
+      (if qs.any (fun q => q.2 ≤ minStart) && !stored.isEmpty then ["before-first-interval"] else []) ++
+      (if run.any (fun r => r.2 + 1 ≥ s.intervals.size && r.2 > 0) then ["cursor-at-end"] else []) ++
+      (if stored.any (fun iv => iv.stop - iv.start ≥ 1000 && stored.countP (fun j => iv.start ≤ j.start && j.stop ≤ iv.stop) ≥ 4) then ["huge-over-small"] else []) ++
+      (if stored.isEmpty then ["empty-set"] else []) ++
+      (if (ivs.zip (ivs.drop 1)).any (fun (a, b) => a.start == b.start && a.stop < b.stop) then ["equal-starts-growing-stops"] else []) ++
+      (if hasMerge ops then ["after-merge"] else [])
+    match o with
+    | none => { kind := "specfail", nontrivial, classes, detail := "implementation panicked (seek or find)" }
+    | some o =>
+      if o.length != qs.length then { kind := "badcase", detail := "observable length" } else
+      let truth := qs.map (fun q => canonIv (stored.filter (·.ov q.1 q.2)))
+      let bad := ((qs.zip o).zip truth).find? (fun ((_, (sk, fd)), t) => !(sk == fd && sk == t))
+      match bad with
+      | some ((q, (sk, fd)), t) =>
+        { kind := "specfail", nontrivial, classes,
+          detail := s!"query [{q.1},{q.2}): seek = {showIvs sk}; find = {showIvs fd}; overlapping stored = {showIvs t}; queries so far {(qs.takeWhile (· != q)).length}" }
+      | none =>
+        let model := run.map (fun r => canonIv r.1)
+        if model != o.map (·.1) then { kind := "diverge", nontrivial, classes, detail := "model seek differs" }
+        else { kind := "ok", nontrivial, classes }
+  | _, _ => { kind := "badcase", detail := "unparsable C17 case" }
+
+/-! ## C11 -/
+structure C11Obs where
+  len : Nat
+  iter : List Rec
+  intoIter : List Rec
+  gets : List (Option Rec × Option Rec)       -- get(i), index(i) (none = panicked) for i in 0..len+3
+  queries : List (Bool × List Rec × List Nat × List (Rec × Nat))  -- is_overlapped, find, find_index_of, find_full
+  mapLen : Nat
+  mapGets : List (Option Nat)
+  mapQueries : List (List (Rec × Nat) × List (Rec × Nat))  -- IndexMap.find (values), find_index_of
+deriving DecidableEq
+
+def recLe (a b : Rec) : Bool := recValLe (a, 0) (b, 0)
+def canonR (l : List Rec) : List Rec := isort recLe l
+def canonN (l : List Nat) : List Nat := sortNat l
+
+def pC11Obs : Parser (Option C11Obs) := do
+  match (← peek?) with
+  | some "panic" => pure none
+  | _ =>
+    let len ← nat
+    let it ← many pRec
+    let into ← many pRec
+    let gets ← many (do let a ← opt pRec; let b ← opt pRec; pure (a, b))
+    let qs ← many (do
+      let b ← bool; let f ← many pRec; let fi ← many nat; let ff ← many pRecVal
+      pure (b, canonR f, canonN fi, canonRV ff))
+    let mlen ← nat
+    let mg ← many (opt nat)
+    let mq ← many (do let f ← many pRecVal; let fi ← many pRecVal; pure (canonRV f, canonRV fi))
+    pure (some ⟨len, it, into, gets, qs, mlen, mg, mq⟩)
+
+/-- values of the IndexMap in the cases are `1000 + i` -/
+def mapVal (i : Nat) : Nat := 1000 + i
+
+def handleC11 (inp obs : List String) : Verdict :=
+  let parsed := (do let xs ← many pRec; let qs ← many pRec; pure (xs, qs)).run inp
+  match parsed, pC11Obs.run obs with
+  | some ((xs, qs), _), some (o, _) =>
+    let n := xs.length
+    let s := IndexSet.fromIter xs
+    let im := IndexMap.fromIter (enumFrom 0 xs |>.map (fun x => (x.1, mapVal x.2)))
+    let hitIdx (q : Rec) : List Nat := (List.range n).filter (fun i => (xs.getD i default).ov q)
+    let nontrivial := n ≥ 2 && qs.any (fun q => !(hitIdx q).isEmpty && (hitIdx q).length < n)
+    let classes :=
+      (if xs.length != xs.eraseDups.length then ["duplicates"] else []) ++
+      (if (xs.zip (xs.drop 1)).any (fun (a, b) => a.chrom != b.chrom) && xs.eraseDups.length > 2 then ["interleaved-chromosomes"] else []) ++
+      (if (xs.zip (xs.drop 1)).any (fun (a, b) => a.chrom == b.chrom && b.start < a.start) then ["unsorted-coordinates"] else []) ++
+      (if n == 0 then ["empty-set"] else []) ++
+      (if qs.any (fun q => (hitIdx q).length ≥ 2 && ((hitIdx q).map (fun i => xs.getD i default)).eraseDups.length < (hitIdx q).length) then ["query-hits-duplicates"] else [])
+    match o with
+    | none => { kind := "specfail", nontrivial, classes, detail := "implementation panicked" }
+    | some o =>
+      -- spec on the implementation's observable
+      let specGets := (List.range (n + 3)).map (fun i => (xs[i]?, xs[i]?))
+      let specQ := qs.map (fun q =>
+        let idx := hitIdx q
+        (!idx.isEmpty, canonR (idx.map (fun i => xs.getD i default)), canonN idx,
+         canonRV (idx.map (fun i => (xs.getD i default, i)))))
+      let specMQ := qs.map (fun q =>
+        let idx := hitIdx q
+        (canonRV (idx.map (fun i => (xs.getD i default, mapVal i))), canonRV (idx.map (fun i => (xs.getD i default, i)))))
+      let spec : C11Obs := ⟨n, xs, xs, specGets, specQ, n, (List.range (n + 3)).map (fun i => if i < n then some (mapVal i) else none), specMQ⟩
+      if o != spec then
+        let d :=
+          if o.len != n then s!"len {o.len} ≠ {n}"
+          else if o.iter != xs || o.intoIter != xs then "iteration order differs from supply order"
+          else if o.gets != specGets then s!"get/index differ from the supplied sequence"
+          else if o.queries != specQ then
+            match (qs.zip (o.queries.zip specQ)).find? (fun (_, (a, b)) => a != b) with
+            | some (q, (a, b)) => s!"query {hexEncode q.chrom}:{q.start}-{q.stop}: find_index_of = {a.2.2.1}, expected positions {b.2.2.1}; is_overlapped = {a.1}"
+            | none => "query count"
+          else "IndexMap observable differs"
+        { kind := "specfail", nontrivial, classes, detail := d }
+      else
+        -- the model must agree with the (spec-conforming) implementation
+        let mQ := qs.map (fun q => (s.isOverlapped q, canonR (s.find q), canonN (s.findIndexOf q), canonRV (s.findFull q)))
+        let mMQ := qs.map (fun q => (match im.find q with | .ok l => canonRV l | .panic => [(default, 0)], canonRV (im.findIndexOf q)))
+        if s.len != o.len || mQ != o.queries || mMQ != o.mapQueries || (List.range (n+3)).map (fun i => (s.get i, s.get i)) != o.gets then
+          { kind := "diverge", nontrivial, classes, detail := "model observable differs" }
+        else { kind := "ok", nontrivial, classes }
+  | _, _ => { kind := "badcase", detail := "unparsable C11 case" }
+
 end BV.Driver
